@@ -94,6 +94,16 @@ CLAIMED = {
         note="Scores as opaque values shared with the reference; robust placeholder independence is C02; equality with a reference robust "
              "loop not encoded. Known finding C05-robust-mad-zero is reported, not suppressed elsewhere. Trusted: pysym, z3.",
         technique="differential symbolic execution + z3 UF/LRA order reasoning; division obligations", ref="5 C05"),
+    "C06": dict(
+        text="Two-level bounded symbolic verification. L1 (exact, QF_LRA): for every (n, weight vector, lambda) of the C01 grid and ALL y, "
+             "c, a, b: ws2d commutes with offsets and time reversal, ignores zero-weight cells and reproduces lines. L2: every smoother "
+             "executed twice (original / shifted by a symbolic integer c with the placeholder shifted too / reversed / linear data) with "
+             "ws2d abstracted and the L1 facts instantiated at corresponding calls; z3 decides same lambda and shifted / reversed / "
+             "unchanged output, a unit of slack only on an exact half-even tie.",
+        note="L2 applies the L1 facts for all lambda > 0 / weights >= 0 (established on a grid). Offset commutation of whole asymmetric "
+             "kernels and robust GCV are not claimed (zero start curve is not offset invariant); linear clause for V-curve kernels outside "
+             "(log of an exact fit). Trusted: pysym, z3.",
+        technique="2-run relational symbolic execution, callee abstraction with exactly-proved lemmas, z3 LRA/UF", ref="5 C06"),
 }
 
 NOT_APPLICABLE = {
